@@ -1691,11 +1691,26 @@ func (w *walker) expr(e ast.Expr) {
 		w.expr(x.High)
 		w.expr(x.Max)
 		w.emitContents(x.X, false)
+		// slicing an array field hands out a window onto the field's own storage: whoever gets the slice
+		// can write the field (binary.PutVarint(v.nonce[:], …)), so it counts as a write
+		if se, ok := unparen(x.X).(*ast.SelectorExpr); ok {
+			if t := w.a.typeOf(se, w.en); t != nil {
+				if _, isArr := t.Underlying().(*types.Array); isArr {
+					w.emitField(se, true)
+				}
+			}
+		}
 	case *ast.StarExpr:
 		w.expr(x.X)
 		w.emitContents(x.X, false)
 	case *ast.UnaryExpr:
 		w.expr(x.X)
+		// &x.f escapes the field: later writes through the pointer are writes of the field
+		if x.Op == token.AND {
+			if se, ok := unparen(x.X).(*ast.SelectorExpr); ok {
+				w.emitField(se, true)
+			}
+		}
 	case *ast.BinaryExpr:
 		w.expr(x.X)
 		w.expr(x.Y)
